@@ -23,7 +23,7 @@ def spec(chk):
     q = chk.quick
     acts = ["SetV", "Expire", "Query", "QueryV", "FQuery", "Get", "FGet", "Read", "FRead", "Refresh", "FRefresh"]
     return dict(
-        cfgs=[dict(name="af", acts=acts, depth=4 if q else 5, deep_depth=6 if q else 7, eoc=True, random=200 if q else 2000)],
+        cfgs=[dict(name="af", acts=acts, depth=5 if q else 6, deep_depth=7 if q else 8, eoc=True, random=200 if q else 2000)],
         invs=INVS, props=PROPS, footprint=FOOTPRINT,
         nontrivial=lambda frm, act: (act["a"] in READS or act["a"][1:] in READS) and pending(frm))
 
